@@ -166,6 +166,36 @@ let run (st : stream) (b : Buffer.t) : unit =
                         OOk (set_next_day_transitions !s trans, ""))
                     | None -> OPanic)
                  | None -> OPanic))
+           | "threeopt" ->
+             let kv = next_int st in let a = next_int st in let bb = next_int st in let c = next_int st in
+             (match pick real kv with
+              | None -> OSkip
+              | Some v ->
+                (match vget v !s.s_vehicles with
+                 | Some ty ->
+                   (match zget ty !s.s_trans with
+                    | Some tr ->
+                      let rec find ci l = match l with
+                        | [] -> None
+                        | (vs, _) :: r -> if List.exists (fun x -> vid x = vid v) vs then Some (ci, List.length vs) else find (ci + 1) r in
+                      (match find 0 tr.tr_cycles with
+                       | Some (ci, n) when n >= 3 ->
+                         let i = a mod (n - 2) in
+                         let j = i + 1 + bb mod (n - 2 - i) in
+                         let k = j + 1 + c mod (n - 1 - j) in
+                         desc := Printf.sprintf "%s %d %d %d %d" (vid v) ci i j k;
+                         (match List.nth_opt tr.tr_cycles ci with
+                          | None -> OPanic
+                          | Some cyc ->
+                            (match three_opt nw cyc (nat_of_int i) (nat_of_int j) (nat_of_int k) (tfn nw !s.s_tours) with
+                             | Ok c2 ->
+                               lift (replace_cycle tr (nat_of_int ci) c2) (fun moved ->
+                                 let trans = List.map (fun (t, x) -> if int_of_z t = int_of_z ty then (t, moved) else (t, x)) !s.s_trans in
+                                 OOk (set_next_day_transitions !s trans, ""))
+                             | _ -> OPanic))
+                       | _ -> OSkip)
+                    | None -> OPanic)
+                 | None -> OPanic))
            | k -> failwith ("unknown op " ^ k) in
          (match outcome with
           | OPanic -> pr "OP %d %s %s -> PANIC\n" n kind !desc
